@@ -467,6 +467,7 @@ func runHelper(c *nd.Ctx, h *hspec, bd hbounds) nd.Result {
 	if h.variants > 1 {
 		variant = c.Choose(h.variants, "consume")
 	}
+	endsWithTimeout := p.eof && c.Choose(2, "input-ends-with-a-read-timeout-instead-of-eof") == 1
 	ns := stanza.NSClient
 	var (
 		env            *vsess.Env
@@ -522,7 +523,13 @@ func runHelper(c *nd.Ctx, h *hspec, bd hbounds) nd.Result {
 						firstReply = p.render(id, el.Attr("to"))
 						env.PeerWrite(firstReply)
 						if p.eof {
-							env.Peer.CloseWrite()
+							if endsWithTimeout {
+								// nothing more arrives and the connection's read deadline passes
+								// (eg. a close deadline): reads fail with a timeout error
+								env.Lib.SetReadDeadline(time.Unix(1, 0))
+							} else {
+								env.Peer.CloseWrite()
+							}
 							alive = false
 						}
 						if p.cancel {
@@ -597,7 +604,7 @@ func runHelper(c *nd.Ctx, h *hspec, bd hbounds) nd.Result {
 		for _, m := range p.before {
 			c.Note("peer first sends: %s", m)
 		}
-		c.Note("reply: %s%s", firstReply, map[bool]string{true: " then end of input", false: ""}[p.eof])
+		c.Note("reply: %s%s (read timeout instead of EOF: %v)", firstReply, map[bool]string{true: " then end of input", false: ""}[p.eof], endsWithTimeout)
 		if len(follow) > 0 {
 			c.Note("later requests answered with: %v", follow)
 		}
